@@ -82,6 +82,10 @@ def gen_cases(rng, tier):
     for is_fd in (True, False):
         cases.append({"is_fd": is_fd, "verbose": False, "steps": [[{"arg": "prog.dat", "content": {"rand": 8, "len": 5000}}, {"arg": "x.bas", "content": {"hex": "41"}}],
                                                                   [{"arg": "prog.dat", "content": {"rand": 9, "len": 30000}}], [{"arg": "y.bas", "content": {"hex": "42"}}, {"arg": "PROG.DAT", "content": {"hex": ""}}]]})
+    # one file taking a whole empty side (157 blocks), first on side 0, then after --eos, then a one-byte file refused by the full side
+    for is_fd in (True, False):
+        cases.append({"is_fd": is_fd, "verbose": False, "steps": [[{"arg": "w0.dat", "content": {"rand": 41, "len": 320240}}],
+                                                                  [{"arg": "s.txt", "content": {"hex": "31"}}, {"eos": "--eos"}, {"arg": "w2.dat", "content": {"rand": 42, "len": 318241}}, {"arg": "one.d", "content": {"hex": "32"}}]]})
     tiny = [{"arg": f"t{k}.d", "content": {"hex": "2a"}} for k in range(112)]
     for is_fd in (True, False):
         cases.append({"is_fd": is_fd, "verbose": False, "steps": [tiny, [{"arg": "big.dat", "content": {"rand": 3, "len": 5000}}], [{"arg": "one.d", "content": {"hex": "31"}}],
@@ -91,7 +95,7 @@ def gen_cases(rng, tier):
         cases.append({"is_fd": is_fd, "verbose": is_fd, "steps": [[{"arg": "a.dat", "content": {"rand": 6, "len": 3000}}],
                                                                    [{"arg": "\u00c9T\u00c9.DAT", "content": {"hex": "414243"}}],
                                                                    [{"arg": "c.dat", "content": {"rand": 7, "len": 300}}, {"arg": "N.\u20ac", "content": {"hex": "31"}}]]})
-    return cases, {"random": n, "fixed": 6}
+    return cases, {"random": n, "fixed": 8}
 
 
 def run_case(case, ctx):
@@ -161,6 +165,24 @@ def run_case(case, ctx):
             if bad:
                 break
             raw_prev = raw
+        if bad is None and raw_prev is not None:
+            # every stored file still reads back intact THROUGH THE TOOL: extract the final image, compare side by side (the last entry of a name wins its path)
+            rx = run_disk(ctx, is_fd, ["-x", "--into", "xout", arch], cd, timeout=120)
+            if rx.get("status") != 0 or rx.get("exc"):
+                bad = {"extraction of the final image failed": [rx.get("status"), rx.get("exc"), rx.get("msg")]}
+            else:
+                snap = cd.snapshot()
+                for i in range(4):
+                    final = {}
+                    for (nm, ex, kd, fl, c) in expect[i]:
+                        final[nm.decode().rstrip() + "." + ex.decode().rstrip()] = c
+                    for label, c in final.items():
+                        got = snap.get(cd.rel(os.path.join("xout", "side%d" % i, label)))
+                        if got != c:
+                            bad = {"a stored file does not read back intact through the tool": [i, label], "want_len": len(c), "got_len": None if got is None else len(got)}
+                            break
+                    if bad:
+                        break
         nontrivial = "refusal" in f or len(case["steps"]) >= 2
         detail = {"disagreement": dis, "oracle": bad} if (dis or bad) else None
         return CaseResult(dis is None, bad is None, detail, sorted(f), nontrivial)
